@@ -16,6 +16,7 @@
 import PrologVerif.Driver.Common
 import PrologVerif.Model.Text
 import PrologVerif.Spec.Load
+import PrologVerif.Model.Files
 namespace PrologVerif.Driver.C20
 open PrologVerif PrologVerif.Load PrologVerif.Driver
 open PrologVerif.DB (PI piArg unify shift maxVar)
@@ -183,5 +184,60 @@ def handler : Handler := fun payload impl =>
     let fs := mkFS files
     (" // ".intercalate (runModel fs loads), judge fs loads ((impl.splitOn " // ").map trim))
   | _, _ => ("BAD-PAYLOAD", "-")
+
+/-! ## stream c20.files: histories of file loads over a file system that changes
+
+  payload :=  step { " // " step }
+  step    :=  "w " NAME " = " items     write (create / replace) a file
+           |  "rm " NAME                remove a file
+           |  "q " term                 the query  ?- consult(Term).
+           |  "load " items             Exec of a text
+  output  :=  per step: "-" for w/rm, otherwise  result " " listing
+-/
+
+open PrologVerif.Files in
+def parseStep (s : String) : Option Files.Step :=
+  let (w, rest) := headWord s
+  match w with
+  | "w" =>
+    match rest.splitOn " = " with
+    | [n, its] => (parseItems its).map fun is => Files.Step.write (trim n) is
+    | [n] => some (Files.Step.write (trim ((n.splitOn " =").headD n)) [])
+    | _ => none
+  | "rm" => some (.remove (trim rest))
+  | "q" =>
+    match parseTerms rest with
+    | some [t] => some (.consult t)
+    | _ => none
+  | "load" => (parseItems rest).map Files.Step.exec
+  | _ => none
+
+def filesEval : Files.Eval := fun p g => evalGoal p g
+
+def runFiles (pol : Files.Policy) (steps : List Files.Step) : List String :=
+  (steps.foldl (fun (acc : Files.World × List String) st =>
+    let (w, e) := Files.step pol filesEval 100000 acc.1 st
+    let out := match st with
+      | .write _ _ | .remove _ => "-"
+      | _ => (match e with | none => "ok" | some e => showErr e) ++ " " ++ showTable w.vm.procs
+    (w, acc.2 ++ [out])) (Files.World.empty, [])).2
+
+def judgeFiles (want got : List String) : String :=
+  let rec go : List String → List String → Nat → String
+    | [], [], _ => "ok"
+    | w :: ws, g :: gs, i =>
+      if w == g then go ws gs (i + 1)
+      else s!"FAIL step #{i}: a failed load leaves no trace and a loaded file is not loaded again; the specification gives `{w}`, implementation gave `{g}`"
+    | _, _, _ => "FAIL output length mismatch"
+  go want got 0
+
+def filesHandler : Handler := fun payload impl =>
+  let payload := match payload.splitOn " @tag " with
+    | p :: _ => p
+    | [] => payload
+  match ((payload.splitOn " // ").map trim).mapM parseStep with
+  | some steps =>
+    (" // ".intercalate (runFiles .code steps), judgeFiles (runFiles .spec steps) ((impl.splitOn " // ").map trim))
+  | none => ("BAD-PAYLOAD", "-")
 
 end PrologVerif.Driver.C20
